@@ -226,7 +226,8 @@ def list_roundtrip_cases(ctx, n):
 
 def run_c19(ctx):
     q = ctx.tier == "quick"
-    mc_stage(ctx, "listrec", LISTREC, dict(CodePool="one", VecPool="ids", IntVals=[5], FloatVals=[F["one"]], NameVals=["a"], DInt=2, DFloat=1, DBool=1, DName=1, DCode=1, DExec=1, DVec=1 if q else 2))
+    mc_stage(ctx, "listrec", LISTREC, dict(CodePool="one", VecPool="ids", IntVals=[5], FloatVals=[F["one"]], NameVals=["a"], DInt=2, DFloat=1, DBool=1, DName=1, DCode=2, DExec=1, DVec=1 if q else 2))
+    mc_stage(ctx, "listset_addr", ["LIST.SET"], dict(CodePool="abc", VecPool="ids", IntVals=[-1, 0, 1, 2, 5], FloatVals=[F["one"]], NameVals=["a"], DInt=1, DFloat=0, DBool=0, DName=0, DCode=3, DExec=1, DVec=1))
     mc_stage(ctx, "listval", LISTVAL, dict(CodePool="recs", IntVals=[-1, 0, 1, 2, 3, 5] if not q else [-1, 0, 1, 2, 5], DInt=2, DCode=2 if q else 3))
     run_events(ctx, "rand_list", random_instr_cases(ctx, LISTREC + LISTVAL, 60 if q else 3000, ctx.seed, small_ints=True))
     # LIST.GET followed by execution of the pushed record: chains of steps validated one by one
@@ -601,7 +602,7 @@ def run_c18(ctx):
             elif k < 0.76:
                 ops.append({"m": "clone", "args": []})
             elif k < 0.82:
-                ops.append({"m": g.r.choice(["diff", "eq"]), "args": [g.r.randint(0, 3)]})
+                ops.append({"m": g.r.choice(["diff", "eq", "diff_text", "diff_text"]), "args": [g.r.randint(0, 3)]})
             elif k < 0.88:
                 ops.append({"m": "filter", "args": [[g.r.randint(0, 3) for _ in range(g.r.randint(0, 3))]]})
             elif k < 0.94:
@@ -609,9 +610,38 @@ def run_c18(ctx):
             elif k < 0.97:
                 ops.append({"m": "get_weight", "args": [ident(), ident()]})
             else:
-                ops.append({"m": g.r.choice(["node_size", "edge_size"]), "args": []})
+                ops.append({"m": g.r.choice(["node_size", "edge_size", "to_string"]), "args": []})
         cs.append({"id": "graphhist-%05d" % i, "api": "graph", "nid": g.r.randint(1, 5), "ops": ops})
+    # incoming-edge lists whose order differs between two snapshots with the same abstract content:
+    # remove an edge (first, middle, last) from the clone and add it again, with the same or another weight
+    W = [gen.f2b(x) for x in (1.0, 2.0, 0.5, 4.0, 8.0)]
+    k = 0
+    for n_in in (2, 3, 4):
+        for pos in range(n_in):
+            for same in (True, False):
+                for selfloop in (False, True):
+                    ops = [{"m": "add_node", "args": [i % 2]} for i in range(n_in + 1)]
+                    d = 1 if selfloop else n_in + 1
+                    origins = list(range(1, n_in + 1))
+                    ops += [{"m": "add_edge", "args": [o, d, W[i]]} for i, o in enumerate(origins)]
+                    ops += [{"m": "clone", "args": []}, {"m": "diff", "args": [1]}, {"m": "eq", "args": [1]},
+                            {"m": "remove_edge", "args": [origins[pos], d]}, {"m": "diff", "args": [1]}, {"m": "diff_text", "args": [1]},
+                            {"m": "add_edge", "args": [origins[pos], d, W[pos] if same else W[4]]},
+                            {"m": "diff", "args": [1]}, {"m": "diff_text", "args": [1]}, {"m": "eq", "args": [1]}, {"m": "edge_size", "args": []},
+                            {"m": "get_weight", "args": [origins[pos], d]}, {"m": "to_string", "args": []},
+                            {"m": "set_weight", "args": [origins[0], d, W[3]]}, {"m": "diff", "args": [1]}, {"m": "diff_text", "args": [1]},
+                            {"m": "remove_node", "args": [origins[pos]]}, {"m": "diff", "args": [1]}, {"m": "diff_text", "args": [1]},
+                            {"m": "to_string", "args": []}, {"m": "edge_size", "args": []}]
+                    cs.append({"id": "edgeorder-%03d" % k, "api": "graph", "nid": 1, "ops": ops}); k += 1
     run_events(ctx, "graph_histories", cs, spec="TraceApi")
+    if not q:
+        # every history of any length on two nodes: the complete (finite) state space, invariants only
+        cfg2 = 'SPECIFICATION Spec\nCONSTANTS\n MaxNodes = 2\n MaxOps = 40\nINVARIANTS G12 G3 G4 G4f G7\nVIEW view\nCHECK_DEADLOCK FALSE\n'
+        _, st = pv.run_tlc_model("MC_Graph", cfg2, ctx.work, workers=12, tag="mc_graph_complete2")
+        if "error" in st:
+            raise pv.ToolError("TLC failed on MC_Graph (complete, two nodes):\n" + st["error"])
+        st["note"] = "complete state space of the Graph API on two nodes (no bound on the history length is reached)"
+        ctx.stats["states"] += st["states"]; ctx.stats["transitions"] += st["transitions"]; ctx.stats["tlc_runs"].append(st)
     run_c18_instr(ctx)
 
 
@@ -695,6 +725,17 @@ def run_c03(ctx):
         cs.append({"id": "verydeep-%03d" % i, "pre": pre, "acts": [{"a": "parse_summary", "text": "( " * n + "1 " + ") " * (n // 2)}]})
         cs.append({"id": "verylong-%03d" % i, "pre": pre, "acts": [{"a": "parse_summary", "text": "INT[" + "7," * n + "7] " + "y" * n + " " + ") " * 5 + "\u00e9" * n + "]"}]})
     run_events(ctx, "random_text", cs)
+    # token classification does not depend on the neighbouring tokens: every instruction name next to
+    # every kind of token, in both orders, bare and inside a list
+    others = ["7", "-2.5", "TRUE", "INTEGER.DUP", "foo", "INT[1,2]", "(", ")", "NAME.QUOTE", "CODE.QUOTE"]
+    cs = []
+    for k, name in enumerate(ctx.registry):
+        for j, o in enumerate(others):
+            pre = dict(base); pre["exec"] = []
+            text = ["%s %s", "%s %s 3", "( %s %s )", "( 1 %s %s ( b ) )"][(k + j) % 4]
+            cs.append({"id": "pair-%s-%d" % (name, j), "pre": pre, "acts": [{"a": "parse", "text": text % (name, o)}]})
+            cs.append({"id": "riap-%s-%d" % (name, j), "pre": pre, "acts": [{"a": "parse", "text": text % (o, name)}]})
+    run_events(ctx, "token_pairs", cs)
 
 
 def run_c11(ctx):
@@ -722,7 +763,7 @@ def run_c11(ctx):
             if k < 0.4: return {"k": "bool", "v": g.r.random() < 0.5}
             if k < 0.6: return {"k": "float", "v": g.float()}
             if k < 0.8: return {"k": "ins", "v": g.r.choice(ctx.registry)}
-            return {"k": "id", "v": g.r.choice(["a", "foo", "x1", "foo-bar", "na\u00efve", "q.r", "T", "inf1"])}
+            return {"k": "id", "v": g.r.choice(["a", "foo", "x1", "foo-bar", "na\u00efve", "q.r", "T", "inf1", "noop", "integer.+", "exec.if", "Code.Dup", "true", "nan1"])}
         rest, kids = points - 1, []
         while rest > 0:
             k = g.r.randint(1, rest); kids.append(tree(k)); rest -= k
@@ -736,6 +777,20 @@ def run_c11(ctx):
         s["exec"].append({"k": "ins", "v": "CODE.PRINT"})
         cs.append({"id": "randtree-%06d" % i, "pre": s, "acts": [{"a": "roundtrip"}, {"a": "print"}, {"a": "steps", "k": 2 if t["k"] != "list" else 1}]})
     run_events(ctx, "random_trees", cs)
+    # every instruction next to every kind of atom (the printed neighbours of a token must not change how it reads)
+    atoms = [{"k": "int", "v": 7}, {"k": "float", "v": gen.f2b(-2.5)}, {"k": "bool", "v": True}, {"k": "ins", "v": "INTEGER.DUP"},
+             {"k": "id", "v": "foo"}, {"k": "ivec", "v": [1, 2]}, {"k": "list", "v": []}, {"k": "ins", "v": "NAME.QUOTE"}]
+    cs = []
+    for k, name in enumerate(ctx.registry):
+        for j, a in enumerate(atoms):
+            s = gen.empty_state()
+            kids = [{"k": "ins", "v": name}, a] if (k + j) % 2 else [a, {"k": "ins", "v": name}]
+            s["exec"] = [{"k": "list", "v": kids + ([{"k": "int", "v": 1}] if j % 3 == 0 else [])}]
+            cs.append({"id": "pairtree-%s-%d" % (name, j), "pre": s, "acts": [{"a": "roundtrip"}]})
+            s2 = gen.empty_state()
+            s2["exec"] = [{"k": "list", "v": [{"k": "ins", "v": name}, a, {"k": "list", "v": [a, {"k": "ins", "v": name}]}]}]
+            cs.append({"id": "pairtree2-%s-%d" % (name, j), "pre": s2, "acts": [{"a": "roundtrip"}]})
+    run_events(ctx, "instruction_pairs", cs)
     # every tree emitted by pushr's own random code generator
     gcases = [{"id": "gen-%05d" % i, "api": "gen", "ops": [{"m": "random_code_with_size", "args": [ctx.registry, g.r.randint(1, 40)]} for _ in range(10)]} for i in range(20 if q else 1500)]
     gp = os.path.join(ctx.work, "gen_items.cases.ndjson"); ge = os.path.join(ctx.work, "gen_items.events.ndjson")
@@ -768,7 +823,7 @@ def run_c12(ctx):
     draws = 8 if q else 120
     cs = []
     k = 0
-    for ilist in ([], ["INTEGER.+"], ctx.registry):
+    for ilist in ([], ["INTEGER.+"], ["EXEC.CMD", "BOOLEAN.AND"], ctx.registry):
         for bound in ({}, {"a": {"k": "int", "v": 1}, "b": {"k": "bool", "v": True}, "c": {"k": "list", "v": []}},
                       {"x": {"k": "int", "v": 2}, "y": {"k": "int", "v": 3}, "zz": {"k": "list", "v": []}}, {"a": {"k": "int", "v": 1}, "q": {"k": "int", "v": 3}, "c": {"k": "list", "v": []}}):
             for pbits, pzero in ((0, True), (981668463, False), (gen.f2b(1.0), False)):
@@ -842,7 +897,9 @@ def run_c13(ctx):
     # INTEGER.RAND / FLOAT.RAND / RANDBOUNDNAME generators under various configurations
     k = 0
     for (lo, hi) in [(-10, 10), (0, 1), (0, 2), (5, 5), (7, 3), (-2147483648, 2147483647), (3, 4)]:
-        for (flo, fhi) in [(-1.0, 1.0), (0.0, 0.5), (2.0, 2.0), (3.0, -3.0), (-0.0, 0.0)]:
+        # the last intervals are a few ulps wide: a generator that rounds can return the excluded upper bound
+        for (flo, fhi) in [(-1.0, 1.0), (0.0, 0.5), (2.0, 2.0), (3.0, -3.0), (-0.0, 0.0), (16777216.0, 16777218.0),
+                           (1.0, 1.0000001192092896), (-16777218.0, -16777216.0), (1000000.0, 1000000.25), (0.0, 1e-45)]:
             st = gen.empty_state(); st["cfg"].update(min_i=lo, max_i=hi, min_f=fb(flo), max_f=fb(fhi))
             o = [{"m": "random_integer", "args": [lo, hi]} for _ in range(draws)] + [{"m": "random_float", "args": [fb(flo), fb(fhi)]} for _ in range(draws)]
             o.append({"m": "random_float_many", "args": [fb(flo), fb(fhi), 200]})
@@ -850,8 +907,9 @@ def run_c13(ctx):
                 o.append({"m": "random_integer_stats", "args": [lo, hi, 30 * (hi - lo) + 30]})
             cs.append({"id": "genscalar-%03d" % k, "api": "gen", "state": st, "ops": o}); k += 1
     for bound in ({}, {"a": {"k": "int", "v": 1}}, {"a": {"k": "int", "v": 1}, "b": {"k": "bool", "v": True}, "zz": {"k": "list", "v": []}}):
-        st = gen.empty_state(); st["bind"] = bound
-        cs.append({"id": "genname-%d" % len(bound), "api": "gen", "state": st, "ops": [{"m": "existing_random_name", "args": [sorted(bound)]} for _ in range(draws * 4)] + [{"m": "new_random_name", "args": []}]})
+        for pnew in (0.001, 0.5, 1.0, 0.0):      # the probability of a NEW name must not leak into the choice of a BOUND name
+            st = gen.empty_state(); st["bind"] = bound; st["cfg"]["new_name_p"] = fb(pnew)
+            cs.append({"id": "genname-%d-%s" % (len(bound), pnew), "api": "gen", "state": st, "ops": [{"m": "existing_random_name", "args": [sorted(bound)]} for _ in range(draws * 4)] + [{"m": "new_random_name", "args": []}]})
     run_events(ctx, "gen_values", cs, spec="TraceApi")
     # the RAND instructions through the interpreter
     mc_stage(ctx, "rand_instr", RAND, dict(IntVals=[-1, 0, 1, 3, 5], FloatVals=[F["zero"], F["h"], F["one"], F["x15"], F["mone"], F["nan"], F["inf"]], DInt=3, DFloat=2))
@@ -862,6 +920,10 @@ def run_c13(ctx):
         s["int"] = [g.r.choice([0, 1, 2, 5, 17, -1, -3])] + [g.r.randint(-5, 20) for _ in range(2)] + s["int"]
         s["float"] = [g.r.choice([fb(x) for x in (0.0, 0.3, 0.5, 0.9, 1.0, 1.2, -0.5, 2.0)] + [fb(float("nan"))]), g.float()] + s["float"]
         s["exec"] = [ins(name)]
+        if g.r.random() < 0.5:
+            s["cfg"]["new_name_p"] = fb(g.r.choice([0.5, 1.0, 0.0, 0.9]))
+        if g.r.random() < 0.2:
+            s["cfg"]["min_f"], s["cfg"]["max_f"] = g.r.choice([(fb(16777216.0), fb(16777218.0)), (fb(1.0), fb(1.0000001192092896)), (fb(-2.0), fb(-1.9999998))])
         cs.append({"id": "randins-%05d" % i, "pre": s, "acts": [{"a": "step"}]})
     run_events(ctx, "rand_instructions", cs)
 
@@ -961,7 +1023,10 @@ def run_c14(ctx):
             elif k < 0.9: parts.append("("); depth += 1
             elif depth > 0: parts.append(")"); depth -= 1
         parts += [")"] * depth
-        cs.append({"id": "cli-%04d" % i, "text": "( " + " ".join(parts) + " )"})
+        # half of the programs are bare sequences of top-level items (no enclosing list)
+        cs.append({"id": "cli-%04d" % i, "text": ("( " + " ".join(parts) + " )") if i % 2 == 0 else " ".join(parts)})
+    for i, t in enumerate(["1 2 INTEGER.+", "CODE.POP CODE.POP CODE.DO* 3 4", "( 1 ) ( 2 ) CODE.APPEND 7", "a b c CODE.CAR", ""]):
+        cs.append({"id": "cli-bare-%d" % i, "text": t})
     clp = os.path.join(ctx.work, "cli.cases.ndjson")
     with open(clp, "w") as f:
         for c in cs: f.write(json.dumps(c) + "\n")
@@ -1013,6 +1078,36 @@ def run_c15(ctx):
             s["exec"] = [ins(name), ins("NOOP")]
             cs.append({"id": "extreme-%s-%d" % (name, i), "pre": s, "acts": [{"a": "step"}], "predict": "bounded"})
     run_events(ctx, "extreme_operands", cs, mem_kb=1024 * 1024, timeout_case=6, env={"PV_UNGUARDED": "1"})
+    # operand combinations and histories that are harmless one by one: code operands that contain each other,
+    # and name bindings that refer to each other (a single step must stay bounded by the state size)
+    I = lambda v: {"k": "int", "v": v}
+    trees = [I(1), lst([I(1), I(3)]), lst([I(1), I(2), lst([I(1)])]), lst([lst([I(1), I(3)]), lst([I(1), I(3)])]), lst([])]
+    cs = []
+    for name in [n for n in ctx.registry if n.startswith("CODE.") or n.startswith("EXEC.")]:
+        if name == "EXEC.CMD":
+            continue
+        k = 0
+        for a in trees:
+            for b in trees:
+                for c in (trees if not q else trees[:3]):
+                    s = gen.empty_state()
+                    s["code"] = [a, b, c]
+                    s["int"] = [2, 1]; s["bool"] = [True]; s["name"] = ["a"]
+                    s["exec"] = [ins(name), a, b, c] if name.startswith("EXEC.") else [ins(name)]
+                    cs.append({"id": "combo-%s-%d" % (name, k), "pre": s, "acts": [{"a": "step"}], "predict": "bounded"}); k += 1
+    idn = lambda v: {"k": "id", "v": v}
+    for k, bind in enumerate([{"a": idn("b"), "b": idn("a")}, {"a": idn("a")}, {"a": idn("b"), "b": idn("c"), "c": idn("a")},
+                              {"a": idn("b"), "b": idn("c"), "c": I(1)}, {"a": lst([idn("a")])}, {"a": idn("b"), "b": lst([idn("a"), idn("b")])}]):
+        for top in sorted(bind):
+            s = gen.empty_state()
+            s["bind"] = bind
+            s["exec"] = [idn(top), ins("NOOP")]
+            cs.append({"id": "alias-%d-%s" % (k, top), "pre": s, "acts": [{"a": "step"}], "predict": "bounded"})
+            s2 = json.loads(json.dumps(s)); s2["name"] = [top]
+            for iname in ("NAME.QUOTE", "CODE.DEFINITION", "EXEC.DEFINE", "NAME.RANDBOUNDNAME"):
+                s3 = json.loads(json.dumps(s2)); s3["exec"] = [ins(iname), idn(top)]
+                cs.append({"id": "alias-%d-%s-%s" % (k, top, iname), "pre": s3, "acts": [{"a": "step"}], "predict": "bounded"})
+    run_events(ctx, "combinations", cs, mem_kb=1024 * 1024, timeout_case=6, env={"PV_UNGUARDED": "1"})
     # (C) doubling programs under the default limits
     cs = []
     for i, body in enumerate([["CODE.DUP", "CODE.LIST"], ["CODE.DUP", "CODE.CONS"], ["CODE.DUP", "CODE.APPEND"], ["EXEC.DUP"], ["NAME.DUP", "NAME.CAT"]]):
